@@ -1,5 +1,6 @@
 import Deb822Verif.Driver.Proto
 import Deb822Verif.Model.RelWrap
+import Deb822Verif.Props.C13Pairs
 /-! C13 driver: `rel.wrap <field text> <allow_substvar>` (see harness/src/reledit.rs). -/
 namespace Deb822Verif.Driver.RelWrap
 open Deb822Verif Proto Rel Rel.Wrap
@@ -20,7 +21,10 @@ def handle (op : String) (args : List String) : Option String :=
     let al := allow == "1"
     let p := parse s al
     if !p.errors.isEmpty then pure "NOT-WELL-FORMED"
-    else if hasBigNumber p.tree then pure "BIGNUM\t!F-C13-2"
+    -- `Version::cmp` panics on a numeric component above i32::MAX: BIGNUM exactly when two distinct
+    -- elements of a list that gets sorted cannot be compared (`Props.C13.sortMayPanic`; otherwise the
+    -- real call is the model's, `C13_wrapO_pairs`)
+    else if Props.C13.sortMayPanic p.tree == some true then pure "BIGNUM\t!F-C13-2"
     else
       match relationsWrap p.tree with
       | .panic _ => pure "PANIC"
